@@ -186,6 +186,8 @@ package cty
 //@   ensures[C07] noopt: (=> (= (Slice.len optional) 0) (= (obj_opt result) empty<String>))
 //@   ensures[C07,C06] wfty: (wf_ty result)
 //@   loop 2 invariant (not (opt_undeclared attrTypes optional $i))
+//@   loop 2 invariant (and (< optionalSet 0) (MapC<String~Unit>.ok (select $H<MapC<String~Unit>> optionalSet)))
+//@   loop 2 invariant (forall ((k String)) (! (=> (select (MapC<String~Unit>.dom (select $H<MapC<String~Unit>> optionalSet)) k) (select (MapC<String~cty.Type>.dom (select nm attrTypesNorm)) k)) :pattern ((select (MapC<String~Unit>.dom (select $H<MapC<String~Unit>> optionalSet)) k))))
 //@   loop 1 invariant (MapC<String~cty.Type>.ok (select nm attrTypesNorm))
 //@   loop 1 invariant (forall ((k String)) (! (= (select (MapC<String~cty.Type>.dom (select nm attrTypesNorm)) k) (exists ((k0 String)) (! (and (select $visited k0) (= (nfc k0) k)) :pattern ((select $visited k0))))) :pattern ((select (MapC<String~cty.Type>.dom (select nm attrTypesNorm)) k))))
 //@   loop 1 invariant (forall ((k String)) (! (=> (select (MapC<String~cty.Type>.dom (select nm attrTypesNorm)) k) (exists ((k0 String)) (! (and (select $visited k0) (= (nfc k0) k) (= (select (MapC<String~cty.Type>.val (select nm attrTypesNorm)) k) (tmap_at attrTypes k0))) :pattern ((select $visited k0))))) :pattern ((select (MapC<String~cty.Type>.dom (select nm attrTypesNorm)) k))))
